@@ -49,6 +49,13 @@ type NamedAnyMap map[interface{}]interface{}
 
 func (NamedAnyMap) HessianCodecName() string { return "test.AnyMap" }
 
+// WithHiddenBase embeds a struct of an UNEXPORTED type: the embedded field is unexported, reflection cannot read it
+type hiddenBase struct{ ID int32 }
+type WithHiddenBase struct {
+	hiddenBase
+	Name string
+}
+
 // CarrierM holds the named map in a TYPED field (so that extraction registers its wire name)
 type CarrierM struct {
 	A int32
@@ -122,6 +129,8 @@ func badKinds() []badKind {
 		}, false},
 		{"struct{unexported field}", func() interface{} { return WithHidden{A: 1, b: 2, C: "c"} }, true},
 		{"*struct{unexported field}", func() interface{} { return &WithHidden{A: 1, b: 2, C: "c"} }, true},
+		{"struct{embedded unexported struct}", func() interface{} { return WithHiddenBase{hiddenBase{1}, "n"} }, true},
+		{"*struct{embedded unexported struct}", func() interface{} { return &WithHiddenBase{hiddenBase{2}, "p"} }, true},
 		{"nil-chan", func() interface{} { var c chan int; return c }, true},
 		{"*nil-chan", func() interface{} { var c chan int; return &c }, true},
 		{"nil-func", func() interface{} { var f func(); return f }, false},
